@@ -108,7 +108,7 @@ func wsRun(c wsCase) wsResult {
 			return
 		}
 		ws.SetReadLimit(1 << 20)
-		ctx, cancel := context.WithTimeout(context.Background(), 40*time.Second)
+		ctx, cancel := context.WithTimeout(context.Background(), 180*time.Second)
 		defer cancel()
 		fail := func(s string) { mu.Lock(); srvErr = s; mu.Unlock() }
 		read := func() string {
@@ -186,7 +186,7 @@ func wsRun(c wsCase) wsResult {
 		cl.PostConnectHook = func() error {
 			select {
 			case <-cutDone:
-			case <-time.After(30 * time.Second):
+			case <-time.After(150 * time.Second):
 			}
 			time.Sleep(300 * time.Millisecond) // lets the transport's reader run into the end of the connection
 			return nil
@@ -198,7 +198,7 @@ func wsRun(c wsCase) wsResult {
 		mu.Unlock()
 		return wsResult{Key: "harness|connect", Detail: err.Error() + " / server: " + se}
 	}
-	deadline := time.Now().Add(30 * time.Second)
+	deadline := time.Now().Add(150 * time.Second)
 	for time.Now().Before(deadline) {
 		rmu.Lock()
 		n := total
@@ -248,7 +248,7 @@ func wsScenarios() []hx.Scenario {
 				{
 					sz, burst := wc.Size, wc.Burst
 					b, _ := json.Marshal(wc)
-					cmd := exec.Command(os.Args[0], "-test.run", "^TestVerifC05$", "-test.timeout", "120s")
+					cmd := exec.Command(os.Args[0], "-test.run", "^TestVerifC05$", "-test.timeout", "400s")
 					cmd.Env = append(os.Environ(), "VERIF_WS_CASE="+string(b), "VERIF_OUT=", "VERIF_SHARD=")
 					out, err := cmd.CombinedOutput()
 					c.Step(1)
